@@ -6,14 +6,13 @@
 // representation every 5 rounds; round keys are pre-permuted accordingly.  Decomposition:
 //   gift_leaf_pack      D: packing / unpacking are mutually inverse bijections between 16-byte blocks and 4x32-bit
 //                       states (so `packing` is a faithful change of representation of the specification's state)
-//   gift_quint_<q>      D: for every key (REAL precompute_rkeys) and every state X:
+//   gift_quint_lo/_hi   D: for every key (REAL precompute_rkeys) and every state X:
 //                         unpacking(quintuple_round(packing(X), rkeys[10q..], GIFT_RC[5q..])) == spec rounds 5q+1..5q+5 (X)
 //                       with the specification's key schedule and LFSR constants -- this is the conformance of
 //                       precompute_rkeys, GIFT_RC and the five round variants together, q = 0..7
-//   gift_quint_inv_<q>  D: the same for inv_quintuple_round and the inverse rounds
+//   gift_quint_inv_*    D: the same for inv_quintuple_round and the inverse rounds
 //   gift_wire_enc/_dec  W: encrypt_block / decrypt_block == unpacking . quintuple_round^8 . packing with the
 //                       slice offsets i*2 / i of the real code, quintuple_round uninterpreted, ARBITRARY round keys
-//   gift_enc_d/_dec_d   D: the whole cipher at once, Gift128::new(key).encrypt_block(b) == spec, all keys and blocks
 //   gift_rt_ed/_rt_de   D: round trips on an arbitrary round-key state
 use super::prelude::*;
 use crate::consts::GIFT_RC;
@@ -69,118 +68,57 @@ fn quint_inv(inp: &[u8], q: usize) -> Option<bool> {
     Some(u128::from_be_bytes(o) == e)
 }
 
-//@ harness name=gift_quint_0 prop=C10,C20 tier=quick bits=256 est=60 desc="D: rounds 1-5: unpacking(quintuple_round(packing(X), precompute_rkeys(key)[0..], GIFT_RC[0..])) == 5 spec rounds (GS, P128, U/V round keys of the spec key schedule, LFSR constants), all keys, all states"
+//@ harness name=gift_quint_lo prop=C10,C20 tier=quick bits=256 est=200 desc="D: rounds 1-20: for q = 0..3: unpacking(quintuple_round(packing(X), precompute_rkeys(key)[10q..], GIFT_RC[5q..])) == the 5 spec rounds 5q+1..5q+5 (GS, P128, U/V round keys of the spec key schedule, LFSR constants; inverse order for the inverse), all keys, all states"
 verif_harness! {
-    name: gift_quint_0,
+    name: gift_quint_lo,
     bytes: 32,
     unwind: 130,
-    prop: |inp| { quint(inp, 0) }
+    prop: |inp| {
+        vcheck!(quint(inp, 0) == Some(true));
+        vcheck!(quint(inp, 1) == Some(true));
+        vcheck!(quint(inp, 2) == Some(true));
+        vcheck!(quint(inp, 3) == Some(true));
+        Some(true)
+    }
 }
-//@ harness name=gift_quint_1 prop=C10,C20 tier=quick bits=256 est=60 desc="D: rounds 6-10: quintuple_round with precompute_rkeys(key)[10..], GIFT_RC[5..] == 5 spec rounds, all keys, all states"
+//@ harness name=gift_quint_hi prop=C10,C20 tier=quick bits=256 est=200 desc="D: rounds 21-40: for q = 4..7: unpacking(quintuple_round(packing(X), precompute_rkeys(key)[10q..], GIFT_RC[5q..])) == the 5 spec rounds 5q+1..5q+5 (GS, P128, U/V round keys of the spec key schedule, LFSR constants; inverse order for the inverse), all keys, all states"
 verif_harness! {
-    name: gift_quint_1,
+    name: gift_quint_hi,
     bytes: 32,
     unwind: 130,
-    prop: |inp| { quint(inp, 1) }
+    prop: |inp| {
+        vcheck!(quint(inp, 4) == Some(true));
+        vcheck!(quint(inp, 5) == Some(true));
+        vcheck!(quint(inp, 6) == Some(true));
+        vcheck!(quint(inp, 7) == Some(true));
+        Some(true)
+    }
 }
-//@ harness name=gift_quint_2 prop=C10,C20 tier=quick bits=256 est=60 desc="D: rounds 11-15: quintuple_round with precompute_rkeys(key)[20..], GIFT_RC[10..] == 5 spec rounds, all keys, all states"
+//@ harness name=gift_quint_inv_lo prop=C10,C20 tier=quick bits=256 est=200 desc="D: inverse of rounds 1-20: for q = 0..3: unpacking(inv_quintuple_round(packing(X), precompute_rkeys(key)[10q..], GIFT_RC[5q..])) == the 5 spec rounds 5q+1..5q+5 (GS, P128, U/V round keys of the spec key schedule, LFSR constants; inverse order for the inverse), all keys, all states"
 verif_harness! {
-    name: gift_quint_2,
+    name: gift_quint_inv_lo,
     bytes: 32,
     unwind: 130,
-    prop: |inp| { quint(inp, 2) }
+    prop: |inp| {
+        vcheck!(quint_inv(inp, 0) == Some(true));
+        vcheck!(quint_inv(inp, 1) == Some(true));
+        vcheck!(quint_inv(inp, 2) == Some(true));
+        vcheck!(quint_inv(inp, 3) == Some(true));
+        Some(true)
+    }
 }
-//@ harness name=gift_quint_3 prop=C10,C20 tier=quick bits=256 est=60 desc="D: rounds 16-20: quintuple_round with precompute_rkeys(key)[30..], GIFT_RC[15..] == 5 spec rounds, all keys, all states"
+//@ harness name=gift_quint_inv_hi prop=C10,C20 tier=quick bits=256 est=200 desc="D: inverse of rounds 21-40: for q = 4..7: unpacking(inv_quintuple_round(packing(X), precompute_rkeys(key)[10q..], GIFT_RC[5q..])) == the 5 spec rounds 5q+1..5q+5 (GS, P128, U/V round keys of the spec key schedule, LFSR constants; inverse order for the inverse), all keys, all states"
 verif_harness! {
-    name: gift_quint_3,
+    name: gift_quint_inv_hi,
     bytes: 32,
     unwind: 130,
-    prop: |inp| { quint(inp, 3) }
-}
-//@ harness name=gift_quint_4 prop=C10,C20 tier=quick bits=256 est=60 desc="D: rounds 21-25: quintuple_round with precompute_rkeys(key)[40..], GIFT_RC[20..] == 5 spec rounds, all keys, all states"
-verif_harness! {
-    name: gift_quint_4,
-    bytes: 32,
-    unwind: 130,
-    prop: |inp| { quint(inp, 4) }
-}
-//@ harness name=gift_quint_5 prop=C10,C20 tier=quick bits=256 est=60 desc="D: rounds 26-30: quintuple_round with precompute_rkeys(key)[50..], GIFT_RC[25..] == 5 spec rounds, all keys, all states"
-verif_harness! {
-    name: gift_quint_5,
-    bytes: 32,
-    unwind: 130,
-    prop: |inp| { quint(inp, 5) }
-}
-//@ harness name=gift_quint_6 prop=C10,C20 tier=quick bits=256 est=60 desc="D: rounds 31-35: quintuple_round with precompute_rkeys(key)[60..], GIFT_RC[30..] == 5 spec rounds, all keys, all states"
-verif_harness! {
-    name: gift_quint_6,
-    bytes: 32,
-    unwind: 130,
-    prop: |inp| { quint(inp, 6) }
-}
-//@ harness name=gift_quint_7 prop=C10,C20 tier=quick bits=256 est=60 desc="D: rounds 36-40: quintuple_round with precompute_rkeys(key)[70..], GIFT_RC[35..] == 5 spec rounds, all keys, all states"
-verif_harness! {
-    name: gift_quint_7,
-    bytes: 32,
-    unwind: 130,
-    prop: |inp| { quint(inp, 7) }
-}
-
-//@ harness name=gift_quint_inv_0 prop=C10,C20 tier=quick bits=256 est=60 desc="D: inverse of rounds 1-5: inv_quintuple_round with precompute_rkeys(key)[0..], GIFT_RC[0..] == 5 inverse spec rounds, all keys, all states"
-verif_harness! {
-    name: gift_quint_inv_0,
-    bytes: 32,
-    unwind: 130,
-    prop: |inp| { quint_inv(inp, 0) }
-}
-//@ harness name=gift_quint_inv_1 prop=C10,C20 tier=quick bits=256 est=60 desc="D: inverse of rounds 6-10 (inv_quintuple_round vs inverse spec rounds), all keys, all states"
-verif_harness! {
-    name: gift_quint_inv_1,
-    bytes: 32,
-    unwind: 130,
-    prop: |inp| { quint_inv(inp, 1) }
-}
-//@ harness name=gift_quint_inv_2 prop=C10,C20 tier=quick bits=256 est=60 desc="D: inverse of rounds 11-15 (inv_quintuple_round vs inverse spec rounds), all keys, all states"
-verif_harness! {
-    name: gift_quint_inv_2,
-    bytes: 32,
-    unwind: 130,
-    prop: |inp| { quint_inv(inp, 2) }
-}
-//@ harness name=gift_quint_inv_3 prop=C10,C20 tier=quick bits=256 est=60 desc="D: inverse of rounds 16-20 (inv_quintuple_round vs inverse spec rounds), all keys, all states"
-verif_harness! {
-    name: gift_quint_inv_3,
-    bytes: 32,
-    unwind: 130,
-    prop: |inp| { quint_inv(inp, 3) }
-}
-//@ harness name=gift_quint_inv_4 prop=C10,C20 tier=quick bits=256 est=60 desc="D: inverse of rounds 21-25 (inv_quintuple_round vs inverse spec rounds), all keys, all states"
-verif_harness! {
-    name: gift_quint_inv_4,
-    bytes: 32,
-    unwind: 130,
-    prop: |inp| { quint_inv(inp, 4) }
-}
-//@ harness name=gift_quint_inv_5 prop=C10,C20 tier=quick bits=256 est=60 desc="D: inverse of rounds 26-30 (inv_quintuple_round vs inverse spec rounds), all keys, all states"
-verif_harness! {
-    name: gift_quint_inv_5,
-    bytes: 32,
-    unwind: 130,
-    prop: |inp| { quint_inv(inp, 5) }
-}
-//@ harness name=gift_quint_inv_6 prop=C10,C20 tier=quick bits=256 est=60 desc="D: inverse of rounds 31-35 (inv_quintuple_round vs inverse spec rounds), all keys, all states"
-verif_harness! {
-    name: gift_quint_inv_6,
-    bytes: 32,
-    unwind: 130,
-    prop: |inp| { quint_inv(inp, 6) }
-}
-//@ harness name=gift_quint_inv_7 prop=C10,C20 tier=quick bits=256 est=60 desc="D: inverse of rounds 36-40 (inv_quintuple_round vs inverse spec rounds), all keys, all states"
-verif_harness! {
-    name: gift_quint_inv_7,
-    bytes: 32,
-    unwind: 130,
-    prop: |inp| { quint_inv(inp, 7) }
+    prop: |inp| {
+        vcheck!(quint_inv(inp, 4) == Some(true));
+        vcheck!(quint_inv(inp, 5) == Some(true));
+        vcheck!(quint_inv(inp, 6) == Some(true));
+        vcheck!(quint_inv(inp, 7) == Some(true));
+        Some(true)
+    }
 }
 
 // ------------------------------------------------------------------ wiring with quintuple_round uninterpreted
@@ -307,36 +245,9 @@ verif_harness! {
     }
 }
 
-// ------------------------------------------------------------------ whole cipher, direct
-
-//@ harness name=gift_enc_d prop=C10,C20 tier=thorough bits=256 est=3600 desc="D: Gift128::new(key).encrypt_block(b) == GIFT-128 of the specification (40 rounds, bit level), all keys, all blocks"
-verif_harness! {
-    name: gift_enc_d,
-    bytes: 32,
-    unwind: 130,
-    prop: |inp| {
-        let key: [u8; 16] = take(inp, 0);
-        let blk: [u8; 16] = take(inp, 16);
-        let c = Gift128::new(&key.into());
-        let mut b: cipher::Block<Gift128> = blk.into();
-        c.encrypt_block(&mut b);
-        Some(b.0 == r::encrypt(&key, &blk))
-    }
-}
-//@ harness name=gift_dec_d prop=C10,C20 tier=thorough bits=256 est=3600 desc="D: Gift128::new(key).decrypt_block(b) == inverse GIFT-128 of the specification, all keys, all blocks"
-verif_harness! {
-    name: gift_dec_d,
-    bytes: 32,
-    unwind: 130,
-    prop: |inp| {
-        let key: [u8; 16] = take(inp, 0);
-        let blk: [u8; 16] = take(inp, 16);
-        let c = Gift128::new(&key.into());
-        let mut b: cipher::Block<Gift128> = blk.into();
-        c.decrypt_block(&mut b);
-        Some(b.0 == r::decrypt(&key, &blk))
-    }
-}
+// (The whole cipher in one direct query -- Gift128::new(key).encrypt_block(b) == spec, 40 rounds -- was tried and
+//  removed: 34 M SAT variables, 13.7 GB at the 14 GB cap of the quick tier, no verdict.  The decomposition above
+//  covers it: packing bijective + every quintuple == 5 spec rounds + encrypt_block == the eight quintuples.)
 
 // ------------------------------------------------------------------ round trips
 
